@@ -309,6 +309,11 @@ def main(tier, seed):
                 ck.failing_input('g-ir-generate --all wrote ill-formed XML: %s' % e, dict(gir=open(gir).read()),
                                  detail=[l for l in q2.stdout.split('\n') if 'offset=' in l][:3])
                 continue
+            stray = [(el.tag.split('}')[-1], (t or '').strip()[:60]) for r_ in (root, root2) for el in r_.iter() for t in (el.text, el.tail)
+                     if t and '="' in t]
+            if stray:
+                ck.failing_input('g-ir-generate wrote an XML attribute after the start tag had been closed: it ends up as text and is lost',
+                                 dict(gir=open(gir).read()), detail=stray[:3])
             d = first_diff(a, sorted(red_xml(root2)))
             if d:
                 ck.failing_input('g-ir-generate --all describes another API than the typelib', dict(gir=open(gir).read()),
